@@ -71,6 +71,10 @@ fn run<const N: usize>() {
 
     let mut cur: Option<OrSWotSet<N>> = None;
     let mut cur_key = String::new();
+    // per state: the newest delete of each node that the REAL set has purged on the way there (the model keeps its own
+    // `pmax`; the two differ exactly when the code purges something the model does not)
+    let mut real_pmax: HashMap<String, std::collections::BTreeMap<u8, datacake_crdt::HLCTimestamp>> = HashMap::new();
+    let mut cur_pmax: std::collections::BTreeMap<u8, datacake_crdt::HLCTimestamp> = Default::default();
     let mut parents: HashMap<String, (String, Value)> = HashMap::new();
     let script_mode = vcommon::arg("--script").is_some();
     for_each_payload(reader, passthrough.as_deref(), |tag, e| {
@@ -80,6 +84,7 @@ fn run<const N: usize>() {
                 states.insert(key.clone(), OrSWotSet::<N>::default());
             }
             cur = states.get(&key).cloned();
+            cur_pmax = real_pmax.get(&key).cloned().unwrap_or_default();
             cur_key = key;
             if cur.is_none() {
                 missing_from += 1;
@@ -101,6 +106,7 @@ fn run<const N: usize>() {
         let clean = e["to"]["clean"].as_bool().unwrap();
         let mut post = pre.clone();
         let mut observed = json!({});
+        let mut post_pmax = cur_pmax.clone();
 
         match kind {
             "insert" | "delete" => {
@@ -142,6 +148,12 @@ fn run<const N: usize>() {
                 if !purged.is_empty() {
                     effective_purges += 1;
                 }
+                for (_, ts) in &purged {
+                    let e = post_pmax.entry(ts.node()).or_insert(*ts);
+                    if *e < *ts {
+                        *e = *ts;
+                    }
+                }
                 let live_pre = live_view(scale, &pre, &keys);
                 let live_post = live_view(scale, &post, &keys);
                 let t_pre = tombstones(&pre);
@@ -168,11 +180,15 @@ fn run<const N: usize>() {
         }
 
         // C08 local: operations of a deleting node not newer than its purged delete stay refused.
+        let mut bounds: Vec<(u64, datacake_crdt::HLCTimestamp)> = post_pmax.iter().map(|(n, t)| (*n as u64, *t)).collect();
         for (n, pm) in fn_items(&e["to"]["pmax"]) {
-            let pm = match scale.ts(pm) {
-                Some(t) => t,
-                None => continue,
-            };
+            if let Some(t) = scale.ts(pm) {
+                bounds.push((n, t));
+            }
+        }
+        bounds.sort();
+        bounds.dedup();
+        for (n, pm) in bounds {
             for (tsv, ts) in universe.iter().filter(|(_, t)| t.node() as u64 == n && *t <= pm) {
                 for k in &keys {
                     refused_probes += 1;
@@ -207,10 +223,14 @@ fn run<const N: usize>() {
         }
         if script_mode {
             cur = Some(post);
+            cur_pmax = post_pmax;
             return;
         }
         if !states.contains_key(&to) {
             parents.insert(to.clone(), (cur_key.clone(), op.clone()));
+            if !post_pmax.is_empty() {
+                real_pmax.insert(to.clone(), post_pmax);
+            }
             states.insert(to, post);
         }
     });
